@@ -10,6 +10,18 @@ ROOT = os.path.dirname(os.path.dirname(os.path.abspath(__file__)))
 CHECKS = ['C%02d' % i for i in range(1, 21)]
 
 
+OWN = {'S3-C20': ['C20', 'C13'], 'S5-C04': ['C04', 'C13'], 'S7-C15': ['C15', 'C16'], 'S9-C15': ['C15', 'C17'], 'S10-C06': ['C06', 'C01']}
+MODE = {'own': False}
+
+
+def checks_for(name):
+    """--own: only the check of the property the change was aimed at (and the check that owns the observable, where that
+    is another one)"""
+    if not MODE['own']:
+        return CHECKS
+    return OWN.get(name, [name.split('-')[-1]])
+
+
 def one(name):
     wt = '/tmp/seedmatrix-' + name
     subprocess.run('git -C /repo worktree remove --force %s' % wt, shell=True, capture_output=True)
@@ -19,7 +31,7 @@ def one(name):
     env = dict(os.environ, MOSROMGR_REPO=wt, VERIF_EVIDENCE_DIR='/tmp/seedmatrix-evidence-' + name, VERIF_REPLAY_DIR='/tmp/seedmatrix-replays-' + name)
     row = {}
     try:
-        for c in CHECKS:
+        for c in checks_for(name):
             r = subprocess.run(['./check', c, '--tier', 'quick'], cwd=ROOT, capture_output=True, text=True, env=env)
             lines = [l for l in r.stdout.split('\n') if l.startswith('VIOLATION')]
             row[c] = 'no' if r.returncode == 0 else ('input' if lines and 'no-failing-input-found' not in lines[0] else
@@ -33,8 +45,14 @@ def one(name):
 
 if __name__ == '__main__':
     seeds = sorted(os.listdir(os.path.join(ROOT, 'seeded')))
-    if len(sys.argv) > 1:
-        seeds = sys.argv[1:]
-    with ThreadPoolExecutor(max_workers=5) as ex:
+    args = sys.argv[1:]
+    if '--own' in args:
+        MODE['own'] = True
+        args.remove('--own')
+    if args:
+        seeds = args
+    with ThreadPoolExecutor(max_workers=6) as ex:
         out = dict(ex.map(one, seeds))
-    json.dump(out, open(os.path.join(ROOT, 'notes', 'seed-matrix.json'), 'w'), indent=1, sort_keys=True)
+    json.dump(out, open(os.path.join(ROOT, 'notes', 'seed-own.json' if MODE['own'] else 'seed-matrix.json'), 'w'), indent=1, sort_keys=True)
+    missed = [n for n, row in out.items() if 'input' not in row.values()]
+    print('seeds without a concrete replay from the checks run:', missed)
